@@ -88,12 +88,12 @@ def validated_contract(fixed):
     WITHIN = "len(value) <= width" if fixed else "True"
     c = Contract("fields.AbstractFieldFormat.validated", setup_validated(fixed),
         requires=[strip_axiom],
-        returns=[Clause("not bad_char(value)", "accepted-cells-contain-only-allowed-characters", props=["C03", "C20"]),
+        returns=[Clause("implies(not (%s), not bad_char(value))" % BLANK, "accepted-non-empty-cells-contain-only-allowed-characters", props=["C03", "C20"]),
                  Clause("implies(%s, allowed_empty and result == EMPTY() and vv_calls == 0)" % BLANK, "empty-cell-accepted-only-if-allowed-yields-empty-value-rule-not-consulted", props=["C03", "C20"]),
                  Clause("implies(not (%s), length_ok(value) and vv_calls == 1 and vv_arg == %s and vv_accepts(%s) and result == vv_native(%s))" % (BLANK, EFF, EFF, EFF),
                         "non-empty-cell-accepted-only-inside-length-and-by-the-rule-called-once-with-the-stripped-value", props=["C03", "C20", "C02"])],
         raises={"FieldValueError": [
-            Clause("bad_char(value) or ((%s) and not allowed_empty) or (not (%s) and (not length_ok(value) or not vv_accepts(%s))) or not (%s)" % (BLANK, BLANK, EFF, WITHIN),
+            Clause("(not (%s) and bad_char(value)) or ((%s) and not allowed_empty) or (not (%s) and (not length_ok(value) or not vv_accepts(%s))) or not (%s)" % (BLANK, BLANK, BLANK, EFF, WITHIN),
                    "rejected-only-for-a-disallowed-character-a-forbidden-empty-cell-a-bad-length-or-the-rule", props=["C03", "C20"]),
             Clause("implies(bad_char(value), vv_calls == 0)", "rule-not-consulted-for-cells-with-disallowed-characters", props=["C03", "C20"]),
             Clause("implies(not bad_char(value) and not (%s) and not length_ok(value), vv_calls == 0)" % BLANK, "rule-not-consulted-for-cells-of-wrong-length", props=["C03", "C20"])]},
@@ -117,7 +117,7 @@ class ValidatedOracle(Oracle):
                 if fmt == "ods" and ftype not in ("Decimal", "Text"): continue
                 for empty in (False, True):
                     for length in (["3"] if fmt == "fixed" else ["", "2", "1...3"]):
-                        for ac in (None, "32, 48...57, 97...122", "late:32, 48...57, 97...122"):
+                        for ac in (None, "32, 48...57, 97...122", "late:32, 48...57, 97...122", "48...57, 97...122"):     # the last one does not allow the blank
                             for cell in (cells[::3] + cells[-6:]) if not ctx.thorough else cells:
                                 if ftype == "Decimal" and (" " in cell.strip(" ") or "\t" in cell or (fmt != "fixed" and cell != cell.strip())): continue      # blanks inside / around a number: Python's Decimal() decides, not the statement
                                 yield (fmt, ftype, empty, length, ac, cell)
@@ -146,7 +146,7 @@ class ValidatedOracle(Oracle):
         except errors.FieldValueError: obs = "reject"; res = None
         except Exception as e: return {"expected": "accept or FieldValueError", "observed": repr(e)}
         # expected verdict from the statement
-        allowed_codes = None if ac is None else set([32] + list(range(48, 58)) + list(range(97, 123)))
+        allowed_codes = None if ac is None else set(([32] if ac.startswith("32") else []) + list(range(48, 58)) + list(range(97, 123)))
         bad = allowed_codes is not None and any(ord(ch) not in allowed_codes for ch in cell)
         blank = (cell.strip() == "") if fmt == "fixed" else (cell == "")
         eff = cell.strip() if fmt == "fixed" else cell
@@ -162,10 +162,10 @@ class ValidatedOracle(Oracle):
                 return d.is_finite() and 0 <= d <= 999
             try: return 0 <= int(v) <= 999
             except ValueError: return False
-        if bad: exp = "reject"; exp_calls = []
-        elif blank:
+        if blank:           # the statement decides the empty cell first: accepted iff allowed to be empty, whatever the allowed characters say about the padding blanks
             if fmt == "fixed" and len(cell) > 3: return None      # outside fixed-width data (longer than the width): not constrained by the statement
             exp = "accept" if empty else "reject"; exp_calls = []
+        elif bad: exp = "reject"; exp_calls = []
         elif not len_ok: exp = "reject"; exp_calls = []
         else: exp = "accept" if rule_ok(eff) else "reject"; exp_calls = [eff]
         if obs != exp: return {"expected": exp, "observed": obs}
